@@ -409,6 +409,12 @@ let indent_spec (s : str) (p : str) : str =
   let ls = split_terminator_lf s in
   join [lF] (List.map (fun l -> (if nonblank l then p else trim_end p) @ l) ls) @ (if ends_with s [lF] then [lF] else [])
 
+(* C15/C16 domain: non-empty words without space/CR/LF that do not begin with a prefix character *)
+let word_ok15 (w : str) : bool =
+  match w with
+  | [] -> false
+  | c :: _ -> not (is_prefix_char c) && List.for_all (fun x -> not (is_sp x || N.eqb x cR || N.eqb x lF)) w
+
 (* ------------------------------------------------------------------ the dispatcher *)
 let run (lineno : int) (lbc : str -> n list) ofit (args : string array) (impl : string) (recf : string) : unit =
   cur_line := lineno;
@@ -626,7 +632,10 @@ let run (lineno : int) (lbc : str -> n list) ofit (args : string array) (impl : 
         (match ps with
          | [a; b] ->
              let la = dolines a and lb = dolines b in
-             if List.length la <> List.length lb then say "C08" "FAIL" "number of lines depends on the indents' characters"
+             let same_shape = N.eqb (dwm o.o_ii) (dwm ii2) && N.eqb (dwm o.o_si) (dwm si2)
+                              && ((o.o_ii = []) = (ii2 = [])) && ((o.o_si = []) = (si2 = [])) in
+             if not same_shape then say "C08" "skip" "indent pairs differ in width or emptiness"
+             else if List.length la <> List.length lb then say "C08" "FAIL" "number of lines depends on the indents' characters"
              else begin
                let rest ii si ls = List.mapi (fun i l -> strip_prefix (if i = 0 then ii else si) l.txt) ls in
                let ra = rest o.o_ii o.o_si la and rb = rest ii2 si2 lb in
@@ -719,6 +728,10 @@ let run (lineno : int) (lbc : str -> n list) ofit (args : string array) (impl : 
              else if no_empty && ((ule = "crlf") <> all_crlf) then say "C15" "FAIL" "reported line ending is wrong"
              else say "C15" "ok" "structural"
          | _ -> say "C15" "FAIL" "unparsable result")
+    | "unfill15" when not (List.for_all word_ok15 (List.map ds (dlist (f 2))) && dlist (f 2) <> []) ->
+        say "C15" "skip" "words outside the property's domain"
+    | "refill16" when not (List.for_all word_ok15 (List.map ds (dlist (f 3))) && dlist (f 3) <> []) ->
+        say "C16" "skip" "words outside the property's domain"
     | "unfill15" ->
         let o = dopts (f 1) and words = List.map ds (dlist (f 2)) and tail = (f 3 = "1") in
         let para = join [sP] words in
